@@ -1650,3 +1650,20 @@ MUTANTS += [
  dict(id='R12-dequeue-only-queued-and-join-resets-status', props=['C12'], expect='R-DEQUEUE/dequeue/',
       edits=[(SS, '\t\tif state.Status == ReceiverStatusTransferring {\n\t\t\ts.mu.Unlock()\n\t\t\tcontinue\n\t\t}\n', '\t\tif state.Status != ReceiverStatusQueued {\n\t\t\ts.mu.Unlock()\n\t\t\tcontinue\n\t\t}\n'), (SS, '\tif state.Status != ReceiverStatusQueued && state.Status != ReceiverStatusTransferring {\n\t\tstate.Status = ReceiverStatusJoined\n\t}\n', '\tstate.Status = ReceiverStatusJoined\n')]),
 ]
+
+# --- round 13 rules ---
+ICE = 'internal/ice/ice.go'
+MUTANTS += [
+ dict(id='R13-rate-integer-division', props=['C14'], expect='R-NO-INT-DIVISION-IN-RATE/int-division/',
+      edits=[(TS, '\tconnectRate := float64(cfg.WSConnectsPerMin) / 60.0\n', '\tconnectRate := float64(cfg.WSConnectsPerMin / 60)\n')]),
+ dict(id='R13-benign-rate-by-a-factor', props=['C14', 'C16'], expect='SILENT',
+      edits=[(TS, '\tconnectRate := float64(cfg.WSConnectsPerMin) / 60.0\n', '\tconnectRate := float64(cfg.WSConnectsPerMin) * (1.0 / 60.0)\n')]),
+ dict(id='R13-item-size-refreshed-at-open', props=['C02'], expect='R-MANIFEST-SIZE-FIXED/manifest-size/',
+      edits=[(MS, '\tf, err := os.Open(s.filePath)\n\tif err != nil {\n\t\treturn nil, err\n\t}\n\ts.file = f\n\treturn f, nil\n', '\tf, err := os.Open(s.filePath)\n\tif err != nil {\n\t\treturn nil, err\n\t}\n\tif st, err := f.Stat(); err == nil {\n\t\ts.item.Size = st.Size()\n\t}\n\ts.file = f\n\treturn f, nil\n')]),
+ dict(id='R13-benign-turns-tcp-in-one-expression', props=['C16'], expect='SILENT',
+      edits=[(ICE, '\tif transport == "tcp" {\n\t\tuseTCP = true\n\t}\n\tif u.Scheme == "turns" {\n\t\tuseTCP = true\n\t\tuseTLS = true\n', '\tuseTCP = transport == "tcp" || u.Scheme == "turns"\n\tif u.Scheme == "turns" {\n\t\tuseTLS = true\n')]),
+ dict(id='R13-turns-tcp-only-with-the-option', props=['C16'], expect='R-TURNS-IMPLIES-TCP/turns-tcp/',
+      edits=[(ICE, '\tif u.Scheme == "turns" {\n\t\tuseTCP = true\n\t\tuseTLS = true\n', '\tif u.Scheme == "turns" {\n\t\tuseTLS = true\n')]),
+ dict(id='R13-addressee-lowercased', props=['C10'], expect='R-ADDRESSEE-VERBATIM/addressee-verbatim/',
+      edits=[(TS, '\t\tif env.To != "" {\n\t\t\t// Targeted send\n', '\t\tenv.To = strings.ToLower(env.To)\n\t\tif env.To != "" {\n\t\t\t// Targeted send\n')]),
+]
